@@ -7,7 +7,7 @@ EXTENDS Expand
 CONSTANTS Sel,        \* alphabets explored in this run
           N,          \* longest input (symbols) from the empty store
           N1, N2,     \* longest %put/%get input from a store with one / with two or more entries
-          NCall       \* longest input over the 8-symbol "call" alphabet
+          NCall       \* longest input over the 9-symbol "call" alphabet
 
 (* environments: 1: HOME=/h A=w$   2: HOME unset, A=v   3: HOME and A set but empty.  B is never set. *)
 EnvMC(e, nm) == IF nm = NmHome THEN (IF e = 1 THEN <<47, 104>> ELSE <<>>)
@@ -21,8 +21,8 @@ Tab(a) ==
     [] a = "til"  -> << <<126>>, <<39>>, <<34>>, <<47>>, <<120>>, <<92>> >>                       \*  ~ ' " / x \
     [] a = "pg"   -> << <<37, 112, 117, 116, 40>>, <<37, 103, 101, 116, 40>>, <<41>>, <<97>>, <<98>>, <<32>> >>   \* %put( %get( ) a b blank
     [] a = "call" -> << <<37, 118, 101, 114, 115, 105, 111, 110, 40>>, <<37, 97, 112, 112, 110, 97, 109, 101, 40>>,
-                        <<37, 114, 97, 110, 100, 111, 109, 40>>, <<41>>, <<97>>, <<32>>, <<37>>, <<37, 71, 69, 84, 40>> >>
-                                                                      \* %version( %appname( %random( ) a blank % %GET(
+                        <<37, 114, 97, 110, 100, 111, 109, 40>>, <<41>>, <<97>>, <<32>>, <<37>>, <<37, 71, 69, 84, 40>>, <<39>> >>
+                                                                      \* %version( %appname( %random( ) a blank % %GET( '
     [] a = "mix"  -> << <<92>>, <<39>>, <<34>>, <<36>>, <<123>>, <<125>>, <<65>>, <<126>>, <<37, 103, 101, 116, 40>>, <<41>> >>
                                                                       \*  \ ' " $ { } A ~ %get( )
 EnvsOf(a) == CASE a = "til" -> {1, 2, 3} [] a = "dol2" -> {1, 3} [] a = "mix" -> {1, 2} [] OTHER -> {1}
@@ -36,8 +36,20 @@ LenOf(a, e, st) == IF a = "pg" THEN (IF Len(st) = 0 THEN N ELSE IF Len(st) = 1 T
 
 RECURSIVE Flat(_, _)
 Flat(ss, tab) == IF ss = <<>> THEN <<>> ELSE tab[ss[1]] \o Flat(Tail(ss), tab)
-TextsOf(a, n) == {Flat(ss, Tab(a)) : ss \in UNION {[1 .. k -> 1 .. Len(Tab(a))] : k \in 0 .. n}}
-StartsMC(st) == UNION {{p[2]} \X TextsOf(p[1], LenOf(p[1], p[2], st)) :
+\* symbol strings of the %put/%get alphabet are offered only when their parentheses balance (symbols 1,2 open, 3 closes):
+\* calls without a closing parenthesis are explored with the "call" alphabet, which cannot change the store
+RECURSIVE BalFrom(_, _, _)
+BalFrom(ss, i, d) == IF i > Len(ss) THEN d = 0
+                     ELSE IF ss[i] <= 2 THEN BalFrom(ss, i + 1, d + 1)
+                     ELSE IF ss[i] = 3 THEN d > 0 /\ BalFrom(ss, i + 1, d - 1)
+                     ELSE BalFrom(ss, i + 1, d)
+SymStrings(a, n) == LET all == UNION {[1 .. k -> 1 .. Len(Tab(a))] : k \in 0 .. n}
+                    IN IF a = "pg" THEN {ss \in all : BalFrom(ss, 1, 0)} ELSE all
+TextsOf(a, n) == {Flat(ss, Tab(a)) : ss \in SymStrings(a, n)}
+\* the text sets are constants: evaluated once (TLC caches constant-level definitions), not per idle state
+DummyStores == {<<>>, <<0>>, <<0, 0>>}
+TextCache == [p \in {q \in {<<a, LenOf(a, e, d)>> : a \in Sel, e \in {1, 2, 3}, d \in DummyStores} : q[2] >= 0} |-> TextsOf(p[1], p[2])]
+StartsMC(st) == UNION {{p[2]} \X TextCache[<<p[1], LenOf(p[1], p[2], st)>>] :
                         p \in {q \in {<<a, e>> : a \in Sel, e \in {1, 2, 3}} : q[2] \in EnvsOf(q[1]) /\ LenOf(q[1], q[2], st) >= 0}}
 
 AppNameMC == <<97, 112>>          \* "ap"
